@@ -127,6 +127,15 @@ def handleTick : Handler := fun j a => do
     let timer := match i.failedAt with | some t => some t | none => some i.now
     if !gatesOpen cfg i master timer then a := a.violationSig "C05:failover-filed-with-a-gate-closed" j.compress
     if !(i.connected && i.lockHeld) then a := a.violationSig "C03:cluster-wide-write-without-lock" j.compress
+    -- "bad at every evaluation by the current manager for at least the failover delay": measured on the harness's own record
+    -- of the health records it published, not on the daemon's timer
+    let ij := (j.getObjVal? "in").toOption.getD Json.null
+    let badSince := jIntOr ij "bad_since" 0
+    let exempt := match i.dcs.get? master with
+      | some md => (md.daemonCrashRecovery == some true && cfg.resetupCrashedHosts) || md.isFsReadonly
+      | none => false
+    if cfg.failoverDelay > 0 && !exempt && !(jBoolOr ij "bad_since_zero" true) && i.now - badSince < cfg.failoverDelay && jIntOr j "tick" 0 ≥ 0 then
+      a := a.violationSig "C05:failover-filed-before-the-record-was-bad-for-the-whole-delay" s!"bad for {(i.now - badSince) / 1000000000}s of {cfg.failoverDelay / 1000000000}s in {j.compress}"
   -- suspicious master: unreachable from the manager, own record good => nothing filed, no repair, no statements
   match i.cs.get? master, i.dcs.get? master with
   | some cm, some md =>
@@ -145,6 +154,12 @@ def handleTick : Handler := fun j a => do
     if oNext != "Maintenance" && i.connected && i.lockHeld then a := a.violationSig "C09:manager-does-not-pause" j.compress
   if (i.maint == .record true true false || i.maint == .record true false false) && oSteps.contains "issueFailover" then
     a := a.violationSig "C09:failover-filed-under-light-maintenance" j.compress
+  -- light maintenance suppresses failover, automatic OR operator-forced: a pending failover-type request is left alone
+  match i.maint, i.sw with
+  | .record true _ _, .record sw =>
+    if sw.failoverType && (oSteps.any fun s => s.startsWith "switchStarted" || s.startsWith "switchPerformed" || s == "switchRejected") then
+      a := a.violationSig "C09:failover-request-taken-up-under-light-maintenance" j.compress
+  | _, _ => pure ()
   -- ---- C06 monitors: request lifecycle ----
   let after ← j.getObjVal? "after"
   let swPresentAfter := jBoolOr after "switch_present" false
